@@ -33,7 +33,7 @@ impl Monitor for C12 {
 		"C12"
 	}
 	fn rule(&self) -> String {
-		"C01's replay space (small/medium histories; every 5th generated replay also carries unknown events with 2..600-byte payloads); the incremental API (parse_header, parse_start, parse_event per call, parse_metadata) is driven over the instrumented source under schedules {whole, 1-byte, fixed 2/3/7/64 and one drawn from {4..17, 255..257, 512, 8192}, random 1..4, random 1..200, two-piece splits: ALL for every 6th file <= 2.5 KB in quick and every 2nd file <= 8 KB in thorough, else 32 random}. Online monitor after EVERY call: bytes_read() == bytes delivered by the counting source - 15 (header); row count never decreases; the completed rows (rows closed by Frame End >= 3.0; all but the open row otherwise) equal, column by column, the same prefix of the one-shot game (checked at every event for the newest completed row and in full at end of stream). Final: start/end/metadata/gecko via the Game trait equal the one-shot result. One evaluation = one (file, schedule) run. distinct = workload classes x schedule; counters give calls monitored.".into()
+		"C01's replay space (small/medium histories; every 5th generated replay also carries unknown events with 2..600-byte payloads); the incremental API (parse_header, parse_start, parse_event per call, parse_metadata) is driven (with the options argument rotating over None / default / skip_frames / compute_hash - none may matter on this path) over the instrumented source under schedules {whole, 1-byte, fixed 2/3/7/64 and one drawn from {4..17, 255..257, 512, 8192}, random 1..4, random 1..200, two-piece splits: ALL for every 6th file <= 2.5 KB in quick and every 2nd file <= 8 KB in thorough, else 32 random}. Online monitor after EVERY call: bytes_read() == bytes delivered by the counting source - 15 (header); row count never decreases; the completed rows (rows closed by Frame End >= 3.0; all but the open row otherwise) equal, column by column, the same prefix of the one-shot game (checked at every event for the newest completed row and in full at end of stream). Final: start/end/metadata/gecko via the Game trait equal the one-shot result. One evaluation = one (file, schedule) run. distinct = workload classes x schedule; counters give calls monitored.".into()
 	}
 	fn assumptions(&self) -> Vec<String> {
 		vec!["the one-shot reader is the reference for the final game (itself checked against the independent model by C03/C04)".into(), "before v3.0 nothing in the stream closes the last frame, so the last row is only compared when it is materially complete".into()]
@@ -110,7 +110,11 @@ impl Monitor for C12 {
 			// full per-step column comparison is costly: do it for single-piece
 			// schedules, sample it for the (many) two-piece splits
 			let deep = !matches!(pol, Policy::Split(_)) || rng.chance(1, 16);
-			let r = common::incremental(&mut src, |st, step, _raw_len| {
+			// the options argument of the incremental calls is varied too: on the incremental path
+			// none of the options may change what is parsed or how bytes are counted
+			let opt_variants = [None, Some(peppi::io::slippi::de::Opts::default()), Some(peppi::io::slippi::de::Opts { skip_frames: true, compute_hash: false, debug: None }), Some(peppi::io::slippi::de::Opts { skip_frames: false, compute_hash: true, debug: None })];
+			let opts = opt_variants[(idx + out.evals as usize) % 4].clone();
+			let r = common::incremental_opts(&mut src, opts.as_ref(), |st, step, _raw_len| {
 				calls_monitored += 1;
 				if problems.len() >= 2 {
 					return;
